@@ -31,6 +31,11 @@ def families(tier, seed):
     for how in ("update_var", "node_values"):
         out.append(dict(tag=f"U31-real-declared-parameter-complex-override/{how}", features=dict(float_declared_complex=True, how=how),
                         kind="float_declared_complex", how=how, vec=False))
+    for which in ("base", "derived"):
+        for vec in (False, True):
+            out.append(dict(tag=f"U33-update_var-on-hierarchy-derived-out-of-place/{which}", features=dict(derived_hierarchy=True, which=which),
+                            kind="derived_hierarchy", which=which, vec=vec))
+    out.append(dict(tag="U32-nano-scale-overrides-through-a-yaml-round-trip", features=dict(tiny_roundtrip=True), kind="tiny_roundtrip", vec=False))
     for vec in (False, True):
         out.append(dict(tag="U29-to_yaml-between-two-compilations", features=dict(yaml_between=True), kind="yaml_between", vec=vec))
     for how in ("update_var", "node_values"):
@@ -159,6 +164,66 @@ def yaml_between_compiles_case(c):
     return dict(status="violated" if fails else "ok", fails=fails[:3])
 
 
+def derived_hierarchy_case(c):
+    """A hierarchical circuit derived out of place (update_template(circuits=...)) and then edited with update_var: the circuit it was
+    derived from compiles with its own values (and the derived one with the edited ones)."""
+    import numpy as np
+    from pyrates import OperatorTemplate, NodeTemplate, CircuitTemplate
+    op = OperatorTemplate(name="o", path=None, equations=["d/dt * x = -k*x + inp"], variables={"x": "output(0.5)", "k": 2.0, "inp": "input(0.0)"})
+    node = NodeTemplate(name="pop", path=None, operators=[op])
+
+    def sub(name):
+        return CircuitTemplate(name=name, path=None, nodes={"a": node, "b": node}, edges=[("a/o/x", "b/o/inp", None, {"weight": 0.5})])
+    base = CircuitTemplate(name="H", path=None, circuits={"c1": sub("S1"), "c2": sub("S2")}, edges=[("c1/a/o/x", "c2/a/o/inp", None, {"weight": 0.1})])
+    ext = base.update_template(name="H2", circuits={"c3": sub("S3")}, in_place=False)
+    ext.update_var(node_vars={"c1/a/o/k": 9.0, "c2/b/o/x": 0.1})
+    which = base if c["which"] == "base" else ext
+    f, a, names, m = which.get_run_func("vf", step_size=1e-3, vectorize=c["vec"], verbose=False, in_place=False, clear=True, float_precision="float64",
+                                        file_name="dh_mod")
+    am = dict(zip(names, a))
+    got_k = np.concatenate([np.asarray(v, dtype=float).ravel() for n, v in am.items() if n.endswith("/o/k")])
+    y0 = np.asarray(am["y"], dtype=float).ravel()
+    if c["which"] == "base":
+        want_k, want_y = [2.0] * 4, [0.5] * 4
+    else:
+        want_k, want_y = [9.0, 2.0, 2.0, 2.0, 2.0, 2.0], [0.5, 0.5, 0.5, 0.1, 0.5, 0.5]
+    fails = []
+    if got_k.tolist() != want_k or not np.allclose(sorted(y0.tolist()), sorted(want_y)):
+        fails.append(dict(clause=f"update_var on a hierarchical circuit derived out of place: the {c['which']} circuit has its own values",
+                          observed=dict(k=got_k.tolist(), y0=y0.tolist()), expected=dict(k=want_k, y0_sorted=sorted(want_y))))
+    return dict(status="violated" if fails else "ok", fails=fails)
+
+
+def tiny_override_roundtrip_case(c):
+    """Overrides of SI-scale constants (nano-units) that differ from the default by a few 1e-9 survive to_yaml / from_yaml and reach
+    exactly the addressed node (the dump must keep definitions apart that differ at all, however little)."""
+    import numpy as np
+    from pyrates import OperatorTemplate, NodeTemplate, CircuitTemplate, clear_frontend_caches
+    op = OperatorTemplate(name="lk", path=None, equations=["d/dt * v = (-g_l*(v - e_l) + i_ext + i_syn) / c_m"],
+                          variables={"v": "output(-0.065)", "g_l": 5e-9, "e_l": -0.065, "c_m": 1e-10, "i_ext": 2e-10, "i_syn": "input(0.0)"})
+    node = NodeTemplate(name="lkn", path=None, operators=[op])
+    net = CircuitTemplate(name="tn", path=None, nodes={f"n{i}": node for i in range(4)}, edges=[("n0/lk/v", "n3/lk/i_syn", None, {"weight": 1e-9})])
+    # (the overridden nodes carry no edges: a dumped override renames the operator and edges on it are the listed C15 finding)
+    net.update_var(node_vars={"n1/lk/g_l": 8e-9, "n2/lk/e_l": -0.07, "n2/lk/g_l": 5.000001e-9})
+    want = {"g_l": [5e-9, 8e-9, 5.000001e-9, 5e-9], "e_l": [-0.065, -0.065, -0.07, -0.065]}
+    fails = []
+    for stage in ("in memory", "after to_yaml / from_yaml"):
+        if stage != "in memory":
+            net.to_yaml("tiny_rt/net.yaml")
+            clear_frontend_caches()
+            net = CircuitTemplate.from_yaml("tiny_rt/net/tn")
+        f, a, names, m = net.get_run_func("vf", step_size=1e-4, vectorize=False, verbose=False, in_place=False, clear=True,
+                                          float_precision="float64", file_name="tiny_mod")
+        for var, exp in want.items():
+            got = []
+            for i in range(4):
+                v_ = [np.asarray(val, dtype=float).ravel()[0] for nm, val in zip(names, a) if nm.startswith(f"n{i}/") and nm.endswith(f"/{var}")]
+                got.append(float(v_[0]) if len(v_) == 1 else None)
+            if got != exp:
+                fails.append(dict(clause=f"{stage}: every node keeps exactly its own value of {var} (values a few 1e-9 apart)", observed=got, expected=exp))
+    return dict(status="violated" if fails else "ok", fails=fails[:2])
+
+
 def float_declared_complex_case(c):
     """A parameter declared with a real literal in a complex-valued model, overridden with a complex value."""
     import numpy as np
@@ -203,6 +268,10 @@ def shared_subcircuit_case(c):
 
 
 def case_fn(c):
+    if c["kind"] == "derived_hierarchy":
+        return derived_hierarchy_case(c)
+    if c["kind"] == "tiny_roundtrip":
+        return tiny_override_roundtrip_case(c)
     if c["kind"] == "float_declared_complex":
         return float_declared_complex_case(c)
     if c["kind"] == "shared_subcircuit":
